@@ -387,6 +387,18 @@ def generic_pool(tier):
     return out
 
 
+def div_one_pool(tier):
+    """Divisions by one (written as 1, 1*1, True, 1.0): x/1 is x, but x//1 is floor(x) and x%1 its fractional part (flatten / fold only: floor divisions
+    as terms of a sum are outside the term collector's fragment)."""
+    import pymbolic.primitives as p
+    x, y = p.Variable("x"), p.Variable("y")
+    out = []
+    for den in (1, p.Product((1, 1)), True, 1.0, p.Sum((0, 1))):
+        for num in (x, p.Quotient(x, 2), p.Sum((x, p.Sum((y, 1)))), p.Product((x, p.Product((y, 3))))):
+            out += [p.FloorDiv(num, den), p.Remainder(num, den), p.Quotient(num, den), p.Sum((p.FloorDiv(num, den), 1)), p.Product((2, p.Remainder(num, den)))]
+    return out
+
+
 def zero_power_pool(tier):
     """Powers whose base is zero-valued (the constant 0, a product with a zero factor) with exponent 0, 1, 2 -- 0**0 is 1 -- as terms of sums and factors of products:
     the truth value of such a node decides whether flattened_sum / flattened_product drop it."""
@@ -509,7 +521,7 @@ def b_flatten(tier):
                    "around nested sums/products): same exact rational function and same exact value in 3 rational environments; result has no sum directly under a sum, no "
                    "product under a product, no 0 in a sum, no 1 in a product; does not raise", bound="depth <= 3, ~2500 expressions (thorough) / ~900 (quick)",
                    functions=["flatten", "FlattenMapper.map_sum", "FlattenMapper.map_product", "flattened_sum", "flattened_product"])
-    for e in poly_pool(tier) + rational_pool(tier) + generic_pool(tier) + zero_power_pool(tier):
+    for e in poly_pool(tier) + rational_pool(tier) + generic_pool(tier) + zero_power_pool(tier) + div_one_pool(tier):
         r = outcome.run(lambda: flatten(e))
         b.case(("flatten", repr(e)), sample=dict(expr=repr(e)))
         if check_value(b, "flatten", e, r, ["flatten"]):
@@ -535,7 +547,7 @@ def b_fold(tier):
     b = BoundedRun("constant-folding", rule="ConstantFoldingMapper()(e) and CommutativeConstantFoldingMapper()(e) on the same pools: same exact rational function, same exact "
                    "value in 3 environments (an exact rational never becomes a float), at most one constant operand left in every folded sum (and product for the commutative "
                    "variant), does not raise", bound="as flatten", functions=["ConstantFoldingMapperBase.fold", "ConstantFoldingMapper", "CommutativeConstantFoldingMapper"])
-    for e in poly_pool(tier) + rational_pool(tier) + generic_pool(tier) + collapse_pool(tier) + zero_power_pool(tier):
+    for e in poly_pool(tier) + rational_pool(tier) + generic_pool(tier) + collapse_pool(tier) + zero_power_pool(tier) + div_one_pool(tier):
         for comm, M in ((False, ConstantFoldingMapper), (True, CommutativeConstantFoldingMapper)):
             r = outcome.run(lambda: M()(e))
             b.case((M.__name__, repr(e)), sample=dict(mapper=M.__name__, expr=repr(e)))
